@@ -16,7 +16,8 @@ CH = ["a", "<", "&", '"', "'", ">", " "]
 BOUNDS = ("export: a fixed document shape of the list schema (heading, paragraph with marked text, image, hard break, "
           "code block, ordered/bullet list, blockquote, rule) with every text and attribute string built from 1..2 "
           "symbolic characters of {a < & dquote squote > space}, heading level 1..6 and list start -1..3 symbolic (rendered into the output text), mark bits symbolic; "
-          "context expressions: 12 expressions, ancestor stacks of depth <= 4 over 6 node types")
+          "context expressions: 12 expressions, ancestor stacks of depth <= 4 over 6 node types; pending marks: every (context type or none, "
+          "pending mark type, next node type, already-active mark or none) of the list/docmarks (thorough: + mx1, mx5) schemas")
 ASSUMPTIONS = ["pending-mark unit: contexts are built directly (NodeContext(type, ...)) with one pending mark and at most one active mark; schemas list, docmarks (quick) + mx1, mx5 (thorough)", "escaping reference = the five replacements for & < > dquote squote in text and attribute values",
                "the lxml-bound import half (parse, parse_slice, add_dom, normalize_list, whitespace handling, round trip) is not covered"]
 
